@@ -1,18 +1,22 @@
 // Group `langclosures`: the per-language comment-visitor closures of src/language_parsers/{rust,php,
 // c_sharp,sql,bash,css}.rs (closure bodies inside `comments_parser()`), plus `MdParser::parse` /
 // `MdParser::parse_html_blocks` of markdown.rs (merge of the two block lists).
-// Units (bodies are the real text of /repo):
+// Units (bodies are the real text of /repo; each closure unit is the WHOLE closure body, rule SLICE with
+// `slice_closure=<<|node, $s|>>`: kind test, slicing of the source, marker branches):
 //   LRS  rust.rs    `///`, `//!`, `//` blanked, other line comments unchanged; block_comment via N1
 //   LPHP php.rs     `//`, `#` blanked, else block comment via N1
 //   LCS  c_sharp.rs `///`, `//` blanked, else block comment via N1
 //   LSQL sql.rs     `--` blanked for kind "comment", N1 for kind "marginalia"
 //   LB   bash.rs    `#!` shebang is NOT a comment; other comments get the first `#` blanked
 //   LCSS css.rs     N1 for kind "comment"
+//   MD2  MdParser::parse_html_blocks (html comments -> P1), MD1 MdParser::parse (sorted merge of both lists),
+//   MD.ord / MD.pord `impl Ord / PartialOrd for Block` (the order the merge uses)
 // Property-level fact (C03 "each with [...] the line and column of its `<`"; T-ext comment invariant the
 // other groups assume): for a node the closure accepts, the returned text has the SAME BYTE LENGTH as the
 // node's source text, every '\n' stays at its byte offset, and the text differs from the source only
 // at the bytes of the comment marker (which become spaces; N1 also blanks decorative `*`). For a
 // node kind the language does not treat as a comment the result is None.
+// C03 "blocks are reported in source order", nothing lost (MD1); C12 errors of either part propagate.
 // C04: no precondition on the node TEXT; the only precondition is T-ext `node_in_source`.
 // Trusted: see langclosures.notes.md.
 #![feature(allocator_api)]
@@ -236,10 +240,37 @@ proof fn lemma_node_text_unique(node: &Node, source: Seq<char>)
     }
 }
 
+/// a char-boundary range of a text is itself valid UTF-8: encoding the node's text gives back exactly the
+/// source bytes in the node's range (proved from vstd's UTF-8 lemmas; nothing assumed)
+proof fn lemma_node_text_bytes(node: &Node, source: Seq<char>)
+    requires node_in_source(node, source)
+    ensures utf8(node_text(node, source)) == node_bytes(node, source)
+{
+    let b = utf8(source);
+    let a = node.byte_range_spec().start as int;
+    let e = node.byte_range_spec().end as int;
+    encode_utf8_valid_utf8(source);
+    lemma_boundary_is_vstd(source, a);
+    lemma_boundary_is_vstd(source, e);
+    valid_utf8_split(b, e);
+    let b1 = b.subrange(0, e);
+    assert(is_char_boundary(b1, a)) by {
+        is_char_boundary_start_end_of_seq(b1);
+        if 0 < a < b1.len() {
+            is_char_boundary_iff_not_is_continuation_byte(b, a);
+            is_char_boundary_iff_not_is_continuation_byte(b1, a);
+            assert(b1[a] == b[a]);
+        }
+    }
+    valid_utf8_split(b1, a);
+    assert(b1.subrange(a, b1.len() as int) =~= b.subrange(a, e));
+    decode_utf8_encode_utf8(b.subrange(a, e));
+}
+
 // ---------------------------------------------------------------------------------------------
 // LRS — rust.rs. The whole closure body (`match node.kind() { .. }`).
 
-//@unit id=LRS file=src/language_parsers/rust.rs fn=comments_parser slice_from=<<match node.kind()>> slice_through=<<match node.kind()>>
+//@unit id=LRS file=src/language_parsers/rust.rs fn=comments_parser slice_closure=<<|node, $s|>>
 //@wrapper
 fn lrs_visit_node(node: &Node, source_code: &str) -> (r: Option<String>)
     requires
@@ -247,7 +278,7 @@ fn lrs_visit_node(node: &Node, source_code: &str) -> (r: Option<String>)
     ensures
         node.kind_spec() != "line_comment"@ && node.kind_spec() != "block_comment"@ ==> r is None, // [LRS.post.other_node_kinds_are_not_comments]
         node.kind_spec() == "line_comment"@ || node.kind_spec() == "block_comment"@ ==> r is Some, // [LRS.post.comment_nodes_are_accepted]
-        r matches Some(s) ==> utf8(node_text(node, source_code@)) == node_bytes(node, source_code@), // [LRS.post.text_is_the_source_in_the_node_range]
+        utf8(node_text(node, source_code@)) == node_bytes(node, source_code@), // [LRS.post.text_is_the_source_in_the_node_range]
         r matches Some(s) ==> utf8(s@).len() == node_bytes(node, source_code@).len(), // [LRS.post.same_byte_length]
         r matches Some(s) ==> comment_text_inv(node_bytes(node, source_code@), utf8(s@)), // [LRS.post.newlines_in_place_only_blanks_differ]
         r matches Some(s) ==> node.kind_spec() == "line_comment"@ && occurs_at(node_bytes(node, source_code@), 0, b_doc3()) // [LRS.post.outer_doc_marker_blanked]
@@ -260,12 +291,12 @@ fn lrs_visit_node(node: &Node, source_code: &str) -> (r: Option<String>)
         r matches Some(s) ==> node.kind_spec() == "line_comment"@ && !occurs_at(node_bytes(node, source_code@), 0, b_slashes()) // [LRS.post.no_marker_text_unchanged]
             ==> utf8(s@) == node_bytes(node, source_code@),
         r matches Some(s) ==> node.kind_spec() == "block_comment"@ ==> n1_post(node_text(node, source_code@), utf8(s@)), // [LRS.post.block_comment_normalised_by_N1]
-//@edit rule=ghost before=<<match node.kind()>>
-    proof { lemma_langc_literals(); lemma_node_text_unique(node, source_code@); }
+//@head
+    proof { lemma_langc_literals(); lemma_node_text_unique(node, source_code@); lemma_node_text_bytes(node, source_code@); }
     let ghost nb = node_bytes(node, source_code@);
-    let verif_r =
+    let verif_r = {
 //@tail
-    ;
+    };
     proof {
         lemma_doc_markers_start_with_slashes(nb);
         if verif_r is Some {
@@ -296,7 +327,7 @@ verif_str_index($a, node.byte_range())
 // ---------------------------------------------------------------------------------------------
 // LPHP — php.rs. The whole closure body (kind test, `let comment`, the three-way branch).
 
-//@unit id=LPHP file=src/language_parsers/php.rs fn=comments_parser slice_from=<<if node.kind() != "comment">> slice_to_block_end=1
+//@unit id=LPHP file=src/language_parsers/php.rs fn=comments_parser slice_closure=<<|node, $s|>>
 //@wrapper
 fn lphp_visit_node(node: &Node, source_code: &str) -> (r: Option<String>)
     requires
@@ -304,7 +335,7 @@ fn lphp_visit_node(node: &Node, source_code: &str) -> (r: Option<String>)
     ensures
         node.kind_spec() != "comment"@ ==> r is None, // [LPHP.post.other_node_kinds_are_not_comments]
         node.kind_spec() == "comment"@ ==> r is Some, // [LPHP.post.comment_nodes_are_accepted]
-        r matches Some(s) ==> utf8(node_text(node, source_code@)) == node_bytes(node, source_code@), // [LPHP.post.text_is_the_source_in_the_node_range]
+        utf8(node_text(node, source_code@)) == node_bytes(node, source_code@), // [LPHP.post.text_is_the_source_in_the_node_range]
         r matches Some(s) ==> utf8(s@).len() == node_bytes(node, source_code@).len(), // [LPHP.post.same_byte_length]
         r matches Some(s) ==> comment_text_inv(node_bytes(node, source_code@), utf8(s@)), // [LPHP.post.newlines_in_place_only_blanks_differ]
         r matches Some(s) ==> occurs_at(node_bytes(node, source_code@), 0, b_slashes()) // [LPHP.post.slash_marker_blanked]
@@ -313,13 +344,12 @@ fn lphp_visit_node(node: &Node, source_code: &str) -> (r: Option<String>)
             ==> blanked_at(node_bytes(node, source_code@), utf8(s@), 0, 1),
         r matches Some(s) ==> !occurs_at(node_bytes(node, source_code@), 0, b_slashes()) && !occurs_at(node_bytes(node, source_code@), 0, b_hash()) // [LPHP.post.block_comment_normalised_by_N1]
             ==> n1_post(node_text(node, source_code@), utf8(s@)),
-//@edit rule=ghost before=<<if node.kind() != "comment">>
-    proof { lemma_langc_literals(); lemma_node_text_unique(node, source_code@); }
+//@head
+    proof { lemma_langc_literals(); lemma_node_text_unique(node, source_code@); lemma_node_text_bytes(node, source_code@); }
     let ghost nb = node_bytes(node, source_code@);
-//@edit rule=ghost after=<<let comment = &source_code[node.byte_range()];>>
-    let verif_r =
+    let verif_r = {
 //@tail
-    ;
+    };
     proof {
         if verif_r is Some {
             let out = utf8(verif_r->Some_0@);
@@ -349,7 +379,7 @@ verif_str_index($a, node.byte_range())
 // ---------------------------------------------------------------------------------------------
 // LCS — c_sharp.rs. The whole closure body (`if node.kind() == "comment" { .. } else { None }`).
 
-//@unit id=LCS file=src/language_parsers/c_sharp.rs fn=comments_parser slice_from=<<if node.kind() == "comment">> slice_to_block_end=1
+//@unit id=LCS file=src/language_parsers/c_sharp.rs fn=comments_parser slice_closure=<<|node, $s|>>
 //@wrapper
 fn lcs_visit_node(node: &Node, source_code: &str) -> (r: Option<String>)
     requires
@@ -357,7 +387,7 @@ fn lcs_visit_node(node: &Node, source_code: &str) -> (r: Option<String>)
     ensures
         node.kind_spec() != "comment"@ ==> r is None, // [LCS.post.other_node_kinds_are_not_comments]
         node.kind_spec() == "comment"@ ==> r is Some, // [LCS.post.comment_nodes_are_accepted]
-        r matches Some(s) ==> utf8(node_text(node, source_code@)) == node_bytes(node, source_code@), // [LCS.post.text_is_the_source_in_the_node_range]
+        utf8(node_text(node, source_code@)) == node_bytes(node, source_code@), // [LCS.post.text_is_the_source_in_the_node_range]
         r matches Some(s) ==> utf8(s@).len() == node_bytes(node, source_code@).len(), // [LCS.post.same_byte_length]
         r matches Some(s) ==> comment_text_inv(node_bytes(node, source_code@), utf8(s@)), // [LCS.post.newlines_in_place_only_blanks_differ]
         r matches Some(s) ==> occurs_at(node_bytes(node, source_code@), 0, b_doc3()) // [LCS.post.doc_marker_blanked]
@@ -366,12 +396,12 @@ fn lcs_visit_node(node: &Node, source_code: &str) -> (r: Option<String>)
             ==> blanked_at(node_bytes(node, source_code@), utf8(s@), 0, 2),
         r matches Some(s) ==> !occurs_at(node_bytes(node, source_code@), 0, b_slashes()) // [LCS.post.block_comment_normalised_by_N1]
             ==> n1_post(node_text(node, source_code@), utf8(s@)),
-//@edit rule=ghost before=<<if node.kind() == "comment">>
-    proof { lemma_langc_literals(); lemma_node_text_unique(node, source_code@); }
+//@head
+    proof { lemma_langc_literals(); lemma_node_text_unique(node, source_code@); lemma_node_text_bytes(node, source_code@); }
     let ghost nb = node_bytes(node, source_code@);
-    let verif_r =
+    let verif_r = {
 //@tail
-    ;
+    };
     proof {
         lemma_doc_markers_start_with_slashes(nb);
         if verif_r is Some {
@@ -402,7 +432,7 @@ verif_str_index($a, node.byte_range())
 // ---------------------------------------------------------------------------------------------
 // LSQL — sql.rs. The whole closure body (`match node.kind() { .. }`).
 
-//@unit id=LSQL file=src/language_parsers/sql.rs fn=comments_parser slice_from=<<match node.kind()>> slice_through=<<match node.kind()>>
+//@unit id=LSQL file=src/language_parsers/sql.rs fn=comments_parser slice_closure=<<|node, $s|>>
 //@wrapper
 fn lsql_visit_node(node: &Node, source_code: &str) -> (r: Option<String>)
     requires
@@ -410,19 +440,19 @@ fn lsql_visit_node(node: &Node, source_code: &str) -> (r: Option<String>)
     ensures
         node.kind_spec() != "comment"@ && node.kind_spec() != "marginalia"@ ==> r is None, // [LSQL.post.other_node_kinds_are_not_comments]
         node.kind_spec() == "comment"@ || node.kind_spec() == "marginalia"@ ==> r is Some, // [LSQL.post.comment_nodes_are_accepted]
-        r matches Some(s) ==> utf8(node_text(node, source_code@)) == node_bytes(node, source_code@), // [LSQL.post.text_is_the_source_in_the_node_range]
+        utf8(node_text(node, source_code@)) == node_bytes(node, source_code@), // [LSQL.post.text_is_the_source_in_the_node_range]
         r matches Some(s) ==> utf8(s@).len() == node_bytes(node, source_code@).len(), // [LSQL.post.same_byte_length]
         r matches Some(s) ==> comment_text_inv(node_bytes(node, source_code@), utf8(s@)), // [LSQL.post.newlines_in_place_only_blanks_differ]
         r matches Some(s) ==> node.kind_spec() == "comment"@ ==> first_blanked(node_bytes(node, source_code@), utf8(s@), b_dashes()), // [LSQL.post.first_dashes_blanked_rest_unchanged]
         r matches Some(s) ==> node.kind_spec() == "comment"@ && occurs_at(node_bytes(node, source_code@), 0, b_dashes()) // [LSQL.post.line_marker_blanked]
             ==> blanked_at(node_bytes(node, source_code@), utf8(s@), 0, 2),
         r matches Some(s) ==> node.kind_spec() == "marginalia"@ ==> n1_post(node_text(node, source_code@), utf8(s@)), // [LSQL.post.block_comment_normalised_by_N1]
-//@edit rule=ghost before=<<match node.kind()>>
-    proof { lemma_langc_literals(); lemma_node_text_unique(node, source_code@); }
+//@head
+    proof { lemma_langc_literals(); lemma_node_text_unique(node, source_code@); lemma_node_text_bytes(node, source_code@); }
     let ghost nb = node_bytes(node, source_code@);
-    let verif_r =
+    let verif_r = {
 //@tail
-    ;
+    };
     proof {
         if verif_r is Some {
             let out = utf8(verif_r->Some_0@);
@@ -453,7 +483,7 @@ verif_str_index($a, node.byte_range())
 // ---------------------------------------------------------------------------------------------
 // LB — bash.rs. The whole closure body (kind test, `let comment`, shebang test).
 
-//@unit id=LB file=src/language_parsers/bash.rs fn=comments_parser slice_from=<<if node.kind() != "comment">> slice_to_block_end=1
+//@unit id=LB file=src/language_parsers/bash.rs fn=comments_parser slice_closure=<<|node, $s|>>
 //@wrapper
 fn lb_visit_node(node: &Node, source: &str) -> (r: Option<String>)
     requires
@@ -462,19 +492,18 @@ fn lb_visit_node(node: &Node, source: &str) -> (r: Option<String>)
         node.kind_spec() != "comment"@ ==> r is None, // [LB.post.other_node_kinds_are_not_comments]
         node.kind_spec() == "comment"@ && occurs_at(node_bytes(node, source@), 0, b_shebang()) ==> r is None, // [LB.post.shebang_is_not_a_comment]
         node.kind_spec() == "comment"@ && !occurs_at(node_bytes(node, source@), 0, b_shebang()) ==> r is Some, // [LB.post.comment_nodes_are_accepted]
-        r matches Some(s) ==> utf8(node_text(node, source@)) == node_bytes(node, source@), // [LB.post.text_is_the_source_in_the_node_range]
+        utf8(node_text(node, source@)) == node_bytes(node, source@), // [LB.post.text_is_the_source_in_the_node_range]
         r matches Some(s) ==> utf8(s@).len() == node_bytes(node, source@).len(), // [LB.post.same_byte_length]
         r matches Some(s) ==> comment_text_inv(node_bytes(node, source@), utf8(s@)), // [LB.post.newlines_in_place_only_blanks_differ]
         r matches Some(s) ==> first_blanked(node_bytes(node, source@), utf8(s@), b_hash()), // [LB.post.first_hash_blanked_rest_unchanged]
         r matches Some(s) ==> occurs_at(node_bytes(node, source@), 0, b_hash()) // [LB.post.hash_marker_blanked]
             ==> blanked_at(node_bytes(node, source@), utf8(s@), 0, 1),
-//@edit rule=ghost before=<<if node.kind() != "comment">>
-    proof { lemma_langc_literals(); lemma_node_text_unique(node, source@); }
+//@head
+    proof { lemma_langc_literals(); lemma_node_text_unique(node, source@); lemma_node_text_bytes(node, source@); }
     let ghost nb = node_bytes(node, source@);
-//@edit rule=ghost after=<<let comment = &source[node.byte_range()];>>
-    let verif_r =
+    let verif_r = {
 //@tail
-    ;
+    };
     proof {
         lemma_doc_markers_start_with_slashes(nb);
         if verif_r is Some {
@@ -503,7 +532,7 @@ verif_str_index($a, node.byte_range())
 // ---------------------------------------------------------------------------------------------
 // LCSS — css.rs. The whole closure body (`if node.kind() == "comment" { Some(N1(..)) } else { None }`).
 
-//@unit id=LCSS file=src/language_parsers/css.rs fn=comments_parser slice_from=<<if node.kind() == "comment">> slice_to_block_end=1
+//@unit id=LCSS file=src/language_parsers/css.rs fn=comments_parser slice_closure=<<|node, $s|>>
 //@wrapper
 fn lcss_visit_node(node: &Node, source_code: &str) -> (r: Option<String>)
     requires
@@ -511,16 +540,16 @@ fn lcss_visit_node(node: &Node, source_code: &str) -> (r: Option<String>)
     ensures
         node.kind_spec() != "comment"@ ==> r is None, // [LCSS.post.other_node_kinds_are_not_comments]
         node.kind_spec() == "comment"@ ==> r is Some, // [LCSS.post.comment_nodes_are_accepted]
-        r matches Some(s) ==> utf8(node_text(node, source_code@)) == node_bytes(node, source_code@), // [LCSS.post.text_is_the_source_in_the_node_range]
+        utf8(node_text(node, source_code@)) == node_bytes(node, source_code@), // [LCSS.post.text_is_the_source_in_the_node_range]
         r matches Some(s) ==> utf8(s@).len() == node_bytes(node, source_code@).len(), // [LCSS.post.same_byte_length]
         r matches Some(s) ==> comment_text_inv(node_bytes(node, source_code@), utf8(s@)), // [LCSS.post.newlines_in_place_only_blanks_differ]
         r matches Some(s) ==> n1_post(node_text(node, source_code@), utf8(s@)), // [LCSS.post.block_comment_normalised_by_N1]
-//@edit rule=ghost before=<<if node.kind() == "comment">>
-    proof { lemma_node_text_unique(node, source_code@); }
+//@head
+    proof { lemma_node_text_unique(node, source_code@); lemma_node_text_bytes(node, source_code@); }
     let ghost nb = node_bytes(node, source_code@);
-    let verif_r =
+    let verif_r = {
 //@tail
-    ;
+    };
     proof {
         if verif_r is Some {
             let out = utf8(verif_r->Some_0@);
@@ -564,8 +593,9 @@ verif_str_index($a, node.byte_range())
 
 // ---- `impl PartialOrd for Block` / `impl Ord for Block` (src/blocks.rs): bodies from /repo, VERIFIED against
 // `block_cmp`: vstd checks an `Ord`/`PartialOrd` impl against `cmp_spec`/`partial_cmp_spec` when `obeys_*` is true
-// (the obligation is vstd's own `ensures` of the trait method, so it carries no label of this group: a failure
-// is reported as `MD.ord.safety.*` / `MD.pord.safety.*`; an explicit `ensures` here is rejected as a cyclic reference).
+// (that obligation is vstd's own `ensures` of the trait method and carries no label; the explicit labelled
+// `ensures` of the two units says the same through the public copy `langc_block_cmp` - naming `cmp_spec`
+// itself in an `ensures` of the impl is rejected as a cyclic reference).
 // `#[derive(PartialEq, Eq)]` of Block (stripped by E11) is needed only as a supertrait: it is declared without
 // a specification (`obeys_eq_spec() == false`, external body) - nothing in this group compares blocks with `==`.
 impl PartialEqSpecImpl for Block {
@@ -587,10 +617,14 @@ impl OrdSpecImpl for Block {
 }
 impl PartialOrd for Block {
 //@unit id=MD.pord file=src/blocks.rs fn=<<impl PartialOrd for Block::partial_cmp>> ret=r
+//@contract
+        ensures r == Some(langc_block_cmp(*self, *other)), // [MD.pord.post.is_cmp_by_start_tag_position]
 //@end
 }
 impl Ord for Block {
 //@unit id=MD.ord file=src/blocks.rs fn=<<impl Ord for Block::cmp>> ret=r
+//@contract
+        ensures r == langc_block_cmp(*self, *other), // [MD.ord.post.compares_start_tag_positions]
 //@end
 }
 
